@@ -34,6 +34,8 @@ func scenarioDefs() []scenarioDef {
 		{"9-capped-book", 1, (*scen).cappedBook},
 		{"10-multi-status-block", 1, (*scen).multiStatus},
 		{"11-kupd-lower-cap", 1, (*scen).kupdLower},
+		{"12-fixed-remainders-one-bidder", 1.5, (*scen).fixedRemainders},
+		{"13-window-jumped-then-cancel", 1, (*scen).windowJump},
 	}
 }
 
@@ -873,4 +875,90 @@ func (sc *scen) kupdLower() bool {
 	}
 	sc.noise()
 	return sc.block(end)
+}
+
+// ---------------------------------------------------------------------------------------------
+// 12. one bidder, several paying-denominated fixed-price bids whose amounts are not multiples of
+// the price: every bid is converted (and counted against cap and remainder) on its own, so the
+// truncation remainders must not add up to extra coins at settlement; cap reached exactly
+
+func (sc *scen) fixedRemainders() bool {
+	g := sc.g
+	if len(sc.bidders) < 2 {
+		return false
+	}
+	p := bs(g.pickStr("3000000000000000000", "7000000000000000000", "1500000000000000000", "2000000000000000000",
+		"700000000000000000", "333333333333333333", "2500000000000000000"))
+	n := g.between(2, 4)
+	// per-bid quantity q_i and a remainder r_i < price (in paying units) that buys nothing
+	var amts []*big.Int
+	total := bi(0)
+	for i := 0; i < n; i++ {
+		q := bi(int64(g.between(1, 5)))
+		pay := mulPriceCeil(q, p) // smallest paying amount that buys q
+		// add a remainder that still converts to q
+		for k := 0; k < 6; k++ {
+			cand := add(pay, bi(int64(g.between(1, 6))))
+			if floorDivPrice(cand, p).Cmp(q) == 0 {
+				pay = cand
+				break
+			}
+		}
+		amts = append(amts, pay)
+		total = add(total, floorDivPrice(pay, p))
+	}
+	S := add(total, bi(int64(g.between(0, 3))))
+	end := g.now + 3600
+	id, ok := sc.createFixed(p, S, g.now, end, sc.smallSched(end))
+	if !ok {
+		return false
+	}
+	b1, b2 := sc.bidders[0], sc.bidders[1]
+	// the cap is exactly what the bids convert to one by one
+	if !sc.kadd(id, capEntry{b1, total}, capEntry{b2, S}) {
+		return false
+	}
+	for i, a := range amts {
+		sc.place(b1, id, "F", p, sc.pd, a)
+		if i == 0 {
+			sc.noise()
+		}
+	}
+	sc.place(b1, id, "F", p, sc.pd, mulPriceCeil(bi(1), p)) // one more coin: over the cap
+	if g.chance(0.5) {
+		sc.place(b2, id, "F", p, sc.pd, add(mulPriceCeil(bi(1), p), bi(1)))
+	}
+	sc.noise()
+	return sc.block(end)
+}
+
+// ---------------------------------------------------------------------------------------------
+// 13. a stand-by auction whose whole sale window is jumped over by one block (chain halt, or a
+// window shorter than the block interval): it must still open at that block, so a later cancel
+// is refused, and it settles at the following block
+
+func (sc *scen) windowJump() bool {
+	g := sc.g
+	p, S := sc.price(), sc.unit(2, 9)
+	start := g.now + int64(g.between(30, 120))
+	end := start + int64(g.between(1, 30))
+	var id uint64
+	var ok bool
+	if g.chance(0.5) {
+		id, ok = sc.createFixed(p, S, start, end, sc.smallSched(end))
+	} else {
+		id, ok = sc.createBatch(p, maxB(quo(p, bi(2)), bi(1)), S, int64(g.between(0, 2)), g.rate(), start, end, sc.smallSched(end))
+	}
+	if !ok {
+		return false
+	}
+	if g.chance(0.5) {
+		sc.block(start - 1)
+	}
+	sc.noise()
+	sc.block(end + int64(g.between(0, 50))) // first block at or after the start is already past the end
+	sc.do(fmt.Sprintf("cancel %d %d", sc.owner, id)) // opened: refused
+	sc.block(g.now + 1)
+	sc.do(fmt.Sprintf("cancel %d %d", sc.owner, id))
+	return true
 }
